@@ -33,7 +33,7 @@ EXTENDS Integers, Sequences, FiniteSets, TLC, Json
 
 CONSTANT NChunks   \* the recording is split into floatlit_rec_1.ndjson .. floatlit_rec_<NChunks>.ndjson
 
-FL == INSTANCE FloatLit WITH AsImplemented <- FALSE, Emit <- FALSE, ChunkSize <- 256, ChunkStride <- 1, Walk <- FALSE, Pow2 <- FALSE,
+FL == INSTANCE FloatLit WITH AsImplemented <- FALSE, Emit <- FALSE, ChunkSize <- 256, ChunkStride <- 1, Walk <- FALSE, Pow2 <- FALSE, Pos <- FALSE,
                              Kinds <- {}, stage <- 0, job <- [kind |-> "none", p |-> 0], pat <- <<>>
 
 \* read once per chunk (TLC does not cache the value of an operator that reads a file)
